@@ -62,6 +62,27 @@ def lake_build(targets, timeout=1800):
     return p.returncode == 0, p.stdout
 
 
+def regen_all():
+    """every translator's output for the checkout under test, so that whatever this property's theorems import is generated from
+    THIS source (a Generated file left behind by a run on another checkout must not leak into this one).  A translator that
+    refuses the source leaves its file as it is: the property it serves reports that."""
+    import importlib
+    tdir = os.path.join(VERIF, 'translators')
+    sys.path.insert(0, tdir)
+    try:
+        for mod in sorted(f[:-3] for f in os.listdir(tdir) if f.startswith('tr_') and f.endswith('.py')):
+            try:
+                m = importlib.import_module(mod)
+                if not hasattr(m, 'outputs'):
+                    continue
+                for rel, content in m.outputs(REPO).items():
+                    regen(rel, content)
+            except Exception as e:  # noqa
+                log('regen_all: translator %s: %r' % (mod, e))
+    finally:
+        sys.path.remove(tdir)
+
+
 def regen(relpath, content):
     """write a generated Lean file only when its content changed"""
     path = os.path.join(LEAN, relpath)
@@ -243,6 +264,7 @@ class Check:
 
     def prove(self, extra_targets=('driver',), extra_audit_modules=(), thorough_recheck=True):
         """build Props/<prop> (+ driver) and audit axioms; each theorem is one obligation"""
+        regen_all()
         ok, out = lake_build(['SuppModel.Props.' + self.prop])
         ns, names = property_theorems(self.prop)
         if not ok:
